@@ -76,7 +76,8 @@ Definition keyset {A} (m : kmap A) : nset := map (fun kv => (fst kv, tt)) m.
 
 (* ---- signatures and calls ---------------------------------------------------------------------- *)
 Record sig : Type := {
-  pos : list (name * option val);      (* positional-or-keyword parameters, with optional default *)
+  pos : list (name * option val);      (* positional parameters, with optional default *)
+  posonly : nat;                       (* how many of them, from the left, are positional-only (before the slash) *)
   varargs : option name;               (* *args *)
   kwonly : list (name * option val);   (* keyword-only parameters *)
   varkw : option name }.               (* **kwargs *)
@@ -88,6 +89,9 @@ Record bound : Type := {
 
 Definition params (s : sig) : list (name * option val) := pos s ++ kwonly s.
 Definition is_param (s : sig) (k : name) : bool := existsb (fun p => N.eqb (fst p) k) (params s).
+(* the parameters a keyword can name: not the positional-only ones *)
+Definition is_kwparam (s : sig) (k : name) : bool :=
+  existsb (fun p => N.eqb (fst p) k) (skipn (posonly s) (pos s) ++ kwonly s).
 Definition is_va (s : sig) (k : name) : bool :=
   match varargs s with Some a => N.eqb a k | None => false end.
 Definition has_va (s : sig) : bool := match varargs s with Some _ => true | None => false end.
@@ -103,13 +107,14 @@ Fixpoint zip_pos (ps : list (name * option val)) (vs : list val) (acc : kmap val
   | (n, _) :: ps', v :: vs' => zip_pos ps' vs' (kset n v acc)
   | _, _ => (acc, vs)
   end.
-(* keywords: a parameter name binds that parameter (TypeError when it already has a value);
-   any other name goes to **kwargs (TypeError when there is none) *)
+(* keywords: the name of a parameter that is not positional-only binds that parameter (TypeError when
+   it already has a value); any other name - also that of a positional-only parameter - goes to
+   **kwargs (TypeError when there is none) *)
 Fixpoint bind_kw (s : sig) (kws : list (name * val)) (asg extra : kmap val) : result (kmap val * kmap val) :=
   match kws with
   | [] => Ok (asg, extra)
   | (k, v) :: r =>
-      if is_param s k then
+      if is_kwparam s k then
         (if kmem k asg then Err ETypeError else bind_kw s r (kset k v asg) extra)
       else if has_kw s then
         (if kmem k extra then Err ETypeError else bind_kw s r asg (kset k v extra))
@@ -437,6 +442,7 @@ Definition field_default (sc : schema) (n : name) : option val :=
 Definition from_schema (sc : schema) : sig :=
   let existing := init_arg_list sc ++ (match init_vararg sc with Some a => [a] | None => [] end) in
   {| pos := map (fun n => (n, field_default sc n)) (init_arg_list sc);
+     posonly := 0;                         (* the schema has no notion of positional-only: make_function writes no slash *)
      varargs := init_vararg sc;
      kwonly := flat_map (fun f => match fst f with
                                   | KConst n => if existsb (N.eqb n) existing then [] else [(n, snd f)]
@@ -453,7 +459,7 @@ Fixpoint force_defaults (ps : list (name * option val)) (seen : bool) : list (na
   end.
 Definition generated_init_sig (s : sig) : sig :=
   let s' := from_schema (to_schema s) in
-  {| pos := force_defaults (pos s') false; varargs := varargs s'; kwonly := kwonly s'; varkw := varkw s' |}.
+  {| pos := force_defaults (pos s') false; posonly := posonly s'; varargs := varargs s'; kwonly := kwonly s'; varkw := varkw s' |}.
 
 (* ---- 3. specification: the effective arguments ------------------------------------------------------ *)
 (* What has been supplied so far: a value per name and, separately, the variadic positional values. *)
@@ -553,7 +559,7 @@ Definition functor_bind (q : quirks) (s : sig) (ctor : call) (ov ie : bool) (lat
 
 (* ---- wire format ------------------------------------------------------------------------------------
    val    ::= z | (z ...)                         integer | list of integers
-   sig    ::= (((name (dflt)?) ...) (va)? ((name (dflt)?) ...) (kw)?)
+   sig    ::= (((name (dflt)?) ...) (va)? ((name (dflt)?) ...) (kw)? posonly)
    call   ::= ((val ...) ((name val) ...))
    case   ::= (0 (q) sig ctor (ov ie) ((name val) ...) call ((ov)? (ie)?) post)   functor; post: 0 none 1 clone 2 json
             | (1 sig ctor partial ((name val) ...))                               symbolized class
@@ -582,7 +588,7 @@ Definition e_state (st : fstate) : tr :=
      ebool (f_ov st); ebool (f_ie st)].
 Definition e_param (p : name * option val) : tr := L [eN (fst p); eopt e_val (snd p)].
 Definition e_sig (s : sig) : tr :=
-  L [L (map e_param (pos s)); eopt eN (varargs s); L (map e_param (kwonly s)); eopt eN (varkw s)].
+  L [L (map e_param (pos s)); eopt eN (varargs s); L (map e_param (kwonly s)); eopt eN (varkw s); enat (posonly s)].
 Definition e_call (c : call) : tr := L [L (map e_val (cpos c)); L (map e_kv (ckw c))].
 
 Definition d_val (t : tr) : option val :=
@@ -591,9 +597,9 @@ Definition d_kv : tr -> option (name * val) := dpair dN d_val.
 Definition d_param : tr -> option (name * option val) := dpair dN (dopt d_val).
 Definition d_sig (t : tr) : option sig :=
   match t with
-  | L [ps; va; ks; vk] =>
-      do ps' <- dlist d_param ps; do va' <- dopt dN va; do ks' <- dlist d_param ks; do vk' <- dopt dN vk;
-      Some {| pos := ps'; varargs := va'; kwonly := ks'; varkw := vk' |}
+  | L [ps; va; ks; vk; po] =>
+      do ps' <- dlist d_param ps; do va' <- dopt dN va; do ks' <- dlist d_param ks; do vk' <- dopt dN vk; do po' <- dnat po;
+      Some {| pos := ps'; posonly := po'; varargs := va'; kwonly := ks'; varkw := vk' |}
   | _ => None
   end.
 Definition d_call (t : tr) : option call :=
